@@ -1331,6 +1331,10 @@ class Models:
             return VBool(z3.Select(args[1].t, args[0].t))
         if name == 'strs_remove':
             return VSetStr(z3.Store(args[0].t, args[1].t, z3.BoolVal(False)))
+        if name == 'strs_add':
+            return VSetStr(z3.Store(args[0].t, args[1].t, z3.BoolVal(True)))
+        if name == 'strs_none':
+            return VSetStr(z3.K(so.S, z3.BoolVal(False)))
         if name == 'seq_update':
             sq = eng.to_seq(args[0], st)
             k, t = eng.elem_term(args[2], st)
